@@ -390,6 +390,10 @@ def rule_nesting(ck: Check, repo: Repo) -> None:
                 return "has_c"
             if text == "info.spdx_expressions":
                 return "has_l"
+            if text == "info.contains_copyright_or_licensing()":
+                return ("or", "has_c", "has_l")
+            if text == "info.contains_info()":
+                return ("or", "has_c", "has_l", "has_other")
             if text.endswith(".contains_copyright_or_licensing()"):
                 m_c = "copyright_lines=info.copyright_lines" in text
                 m_l = "spdx_expressions=info.spdx_expressions" in text
@@ -422,9 +426,16 @@ def rule_nesting(ck: Check, repo: Repo) -> None:
                 gs = tuple(x.v if isinstance(x, Const) else None for x in got_state)
                 r.instance(f"cleanup:{cf},{lf},{hc},{hl}", {"state": [cf, lf], "element": [hc, hl], "keeps": events,
                                                             "next": list(gs)})
-                if events != exp_ev or gs != exp_state or outcome is not None:
+                free = [a for a in d if a.startswith("?")]
+                if events != exp_ev or gs != exp_state or outcome is not None or free:
+                    why = ""
+                    if outcome is not None:
+                        why = f"; the walk towards the outer REUSE.toml files is left early ({outcome[0]}): an attribute that only an" \
+                              " outer file provides is lost"
+                    if free:
+                        why += f"; depends on unrecognised condition {free[0]}"
                     r.violation(q2, f"closest clean-up cell found=({cf},{lf}) element=({hc},{hl})",
-                                f"keeps {events} -> state {gs}; expected {exp_ev} -> {exp_state} (nearest provider per attribute)",
+                                f"keeps {events} -> state {gs}; expected {exp_ev} -> {exp_state} (nearest provider per attribute){why}",
                                 repo.loc(clean))
     r.floor(9, "clean-up cells", got=n_cells)
     s2 = ast.unparse(f2)
